@@ -56,21 +56,32 @@ static void ls_init(void)
 
 int libstate_ranges(void) { if (nrg < 0) ls_init(); return nrg; }
 
-void libstate_snapshot(void)
+/* under ASan the input sections include the red zones between globals: read them byte by byte, uninstrumented */
+#if defined(__clang__) || defined(__GNUC__)
+#  define NO_ASAN __attribute__((no_sanitize("address")))
+#else
+#  define NO_ASAN
+#endif
+
+NO_ASAN void libstate_snapshot(void)
 {
     if (nrg < 0) ls_init();
     size_t off = 0;
-    for (int i = 0; i < nrg; i++) { memcpy(snap + off, rg[i].addr, rg[i].size); off += rg[i].size; }
+    for (int i = 0; i < nrg; i++) {
+        volatile const unsigned char *src = rg[i].addr;
+        for (size_t b = 0; b < rg[i].size; b++) snap[off + b] = src[b];
+        off += rg[i].size;
+    }
 }
 
 /* returns the member whose non-shared static storage changed since the snapshot, or NULL */
-const char *libstate_changed(size_t *offset)
+NO_ASAN const char *libstate_changed(size_t *offset)
 {
     size_t off = 0;
     for (int i = 0; i < nrg; i++) {
-        if (!rg[i].shared_by_design && memcmp(snap + off, rg[i].addr, rg[i].size) != 0) {
-            for (size_t b = 0; b < rg[i].size; b++) if (snap[off + b] != rg[i].addr[b]) { if (offset) *offset = b; break; }
-            return rg[i].member;
+        if (!rg[i].shared_by_design) {
+            volatile const unsigned char *cur = rg[i].addr;
+            for (size_t b = 0; b < rg[i].size; b++) if (snap[off + b] != cur[b]) { if (offset) *offset = b; return rg[i].member; }
         }
         off += rg[i].size;
     }
